@@ -682,10 +682,11 @@ def build_level(lv: dict, problem):
         return CMALevelConfig(problem=problem, lsc=lsc, generations=lv["gens"], sigma0=None)
     if e == "cma_stds":
         return CMALevelConfig(problem=problem, lsc=lsc, generations=lv["gens"], sigma0=lv.get("sigma0"), set_stds=True)
+    mk = {"method": lv["method"]} if "method" in lv else {}
     if e == "local":
-        return LocalOptimizationConfig(problem=problem, lsc=lsc)
+        return LocalOptimizationConfig(problem=problem, lsc=lsc, **mk)
     if e == "local_maxiter":
-        return LocalOptimizationConfig(problem=problem, lsc=lsc, maxiter=lv["maxiter"])
+        return LocalOptimizationConfig(problem=problem, lsc=lsc, maxiter=lv["maxiter"], **mk)
     if e == "lhs":
         return LHSLevelConfig(problem=problem, lsc=lsc, pop_size=lv["pop"])
     if e == "sobol":
